@@ -235,6 +235,12 @@ impl HashedNTupleLayoutConfig {
             self.digest_algorithm,
             self.tuple_size,
             self.number_of_tuples,
+        )?;
+        validate_short_object_root(
+            self.digest_algorithm,
+            self.tuple_size,
+            self.number_of_tuples,
+            self.short_object_root,
         )
     }
 }
@@ -733,6 +739,28 @@ fn validate_digest_algorithm(
             total_tuples_length,
             algorithm,
             digest.len()
+        )))
+    } else {
+        Ok(())
+    }
+}
+
+fn validate_short_object_root(
+    algorithm: DigestAlgorithm,
+    tuple_size: usize,
+    number_of_tuples: usize,
+    short_object_root: bool,
+) -> Result<()> {
+    let digest: String = algorithm.hash_hex(&mut "test".as_bytes()).unwrap().into();
+
+    if short_object_root && digest.len() == tuple_size * number_of_tuples {
+        Err(RocflError::InvalidConfiguration(format!(
+            "shortObjectRoot must be false when tupleSize={} and numberOfTuples={} use all {} \
+             characters of the {} digest.",
+            tuple_size,
+            number_of_tuples,
+            digest.len(),
+            algorithm
         )))
     } else {
         Ok(())
